@@ -934,6 +934,33 @@ class Engine:
             return k(st, self.new_object(st, cname))
         return bm.construct_builtin(self, cname, args, kwargs, st, fr, k, node)
 
+    def dyn_ref_method(self, o, name, args, kwargs, st, fr, k):
+        """obj.name(...) where obj is a dynamic value known to be a reference: dispatch on its class.
+        Containers reachable through dynamic slots are dict:str:any / list:any by convention."""
+        r = PyVal.rval(o.t)
+        ct = self.cls_term(st, r)
+        cases = []
+        dict_m = {"get", "pop", "keys", "values", "items", "copy"}
+        list_m = {"append", "extend", "insert", "index", "remove", "pop", "count", "sort"}
+        if name in dict_m:
+            cases.append((ct == self.class_ids["dict"],
+                          lambda s: bm.call_method(self, SRef(r, "dict:str:any"), name, args, kwargs, s, fr, k)))
+        if name in list_m:
+            cases.append((ct == self.class_ids["list"],
+                          lambda s: bm.call_method(self, SRef(r, "list:any"), name, args, kwargs, s, fr, k)))
+        for cname in self.repo.classes:
+            if self.repo.lookup_method(cname, name) is not None:
+                cases.append((ct == self.class_ids[cname],
+                              (lambda cn: lambda s: self.get_attr(SRef(r, "ref:" + cn), name, s, fr,
+                                                                  lambda s2, f: self.call(f, args, kwargs, s2, fr, k)))(cname)))
+
+        def go(i, s):
+            if i == len(cases):
+                return self.raise_new(s, "AttributeError")
+            cond, fn = cases[i]
+            return self.branch(s, cond, fn, lambda s2: go(i + 1, s2), f"dyn-cls.{name}")
+        return go(0, st)
+
     # ------------------------------------------------------------------ statements
     def ex(self, stmts, st, fr, k):
         if not stmts:
